@@ -1,12 +1,12 @@
-\* C07 design check on the oblong shapes 2x3 and 3x2: all spanning trees x {plain, solved with every cell
-\* sequence of length <= 2} x {UT, CTT} x every admissible emission (5! orders x 2^5 orientations)
+\* C07 design check on the oblong shapes 2x3 and 3x2: all spanning trees, plain mazes, UT style,
+\* every admissible emission (5! orders x 2^5 orientations = 3840 per tree)
 SPECIFICATION Spec
 CONSTANTS
   Shapes <- ShapesL2
-  CoordKinds <- BothCoordKinds
+  CoordKinds <- UTOnly
   MaxSol = 1
   TreesOnly = TRUE
-  WhichKinds <- PlainAndSolved
+  WhichKinds <- PlainOnly
   BrokenLimit = FALSE
 INVARIANTS RoundTrip RoundTripIff InEmitExact EquivExact
 CHECK_DEADLOCK FALSE
